@@ -1645,26 +1645,34 @@ class CodedKern(Kern):
         # within the user-supplied kernel-output directory.
         name_idx = -1
         fdesc = None
+        tmp_name = None
         while not fdesc:
             name_idx += 1
             new_suffix = ""
 
-            new_suffix += f"_{name_idx}"
-            new_name = old_base_name + new_suffix + "_mod.f90"
+            if config.kernel_naming == "single":
+                # We only ever create one copy of a transformed kernel. It
+                # is first written to a temporary file which is then linked
+                # to its final name so that the kernel file is complete as
+                # soon as it exists (in case this is part of a parallel
+                # build).
+                new_suffix += "_0"
+                new_name = old_base_name + new_suffix + "_mod.f90"
+                tmp_name = f"{new_name}.tmp{name_idx}"
+            else:
+                new_suffix += f"_{name_idx}"
+                new_name = old_base_name + new_suffix + "_mod.f90"
 
             try:
                 # Atomically attempt to open the new kernel file (in case
                 # this is part of a parallel build)
                 fdesc = os.open(
-                    os.path.join(config.kernel_output_dir, new_name),
+                    os.path.join(config.kernel_output_dir,
+                                 tmp_name if tmp_name else new_name),
                     os.O_CREAT | os.O_WRONLY | os.O_EXCL)
-            except (OSError, IOError):
+            except FileExistsError:
                 # The os.O_CREATE and os.O_EXCL flags in combination mean
                 # that open() raises an error if the file exists
-                if config.kernel_naming == "single":
-                    # If the kernel-renaming scheme is such that we only ever
-                    # create one copy of a transformed kernel then we're done
-                    break
                 continue
 
         # Use the suffix we have determined to rename all relevant quantities
@@ -1687,9 +1695,24 @@ class CodedKern(Kern):
         fll = FortLineLength()
         new_kern_code = fll.process(new_kern_code)
 
-        if not fdesc:
-            # If we've not got a file descriptor at this point then that's
-            # because the file already exists and the kernel-naming scheme
+        # Write the modified AST out to file
+        os.write(fdesc, new_kern_code.encode())
+        # Close the new kernel file
+        os.close(fdesc)
+
+        if tmp_name:
+            tmp_path = os.path.join(config.kernel_output_dir, tmp_name)
+            try:
+                # Atomically give the complete file its final name. This
+                # raises an error if that file already exists.
+                os.link(tmp_path,
+                        os.path.join(config.kernel_output_dir, new_name))
+                return
+            except FileExistsError:
+                pass
+            finally:
+                os.remove(tmp_path)
+            # The file already exists and the kernel-naming scheme
             # ("single") means we're not creating a new one.
             # Check that what we've got is the same as what's in the file
             with open(os.path.join(config.kernel_output_dir,
@@ -1707,11 +1730,6 @@ class CodedKern(Kern):
                         f" generate a new, unique kernel for every kernel "
                         f"that is transformed then use "
                         f"'--kernel-renaming multiple'.)")
-        else:
-            # Write the modified AST out to file
-            os.write(fdesc, new_kern_code.encode())
-            # Close the new kernel file
-            os.close(fdesc)
 
     def _rename_psyir(self, suffix):
         '''Rename the PSyIR module and kernel names by adding the supplied
